@@ -58,7 +58,11 @@ fn sentinel_bytes(v: u32, width: u32, kind: char) -> Vec<u8> {
 pub fn run(tier: &str) -> i32 {
     let mut rep = Report::new("C10", tier);
     let thorough = rep.thorough();
-    let all = struct_space(true, thorough, true, true);
+    let mut all = struct_space(true, thorough, true, true);
+    // structs that are shader IO and host-shareable at once (vertex pulling / instance data written by compute)
+    // (members with @builtin are left out: the Rust struct has no field for them, so "every field at its WGSL
+    // offset" is not well defined for what follows; C05 covers their assertion literals)
+    all.extend(crate::c05::io_host_space().into_iter().filter(|p| !p.key.contains("variant=2")));
     // universe: every member type representable by glam
     let progs: Vec<StructProg> = all
         .into_iter()
@@ -74,7 +78,7 @@ pub fn run(tier: &str) -> i32 {
     for (i, (p, t)) in progs.iter().zip(texts.iter()).enumerate() {
         rep.states += 1;
         rep.transitions += p.env.get(&p.root).members.len() as u64;
-        let forced = p.key.starts_with("attr|") || p.key.starts_with("rt") || p.key.contains("vec3<f32>|f32") || p.key.contains("mat3x3<f32>") && p.key.starts_with("s1");
+        let forced = p.key.starts_with("attr|") || p.key.starts_with("rt") || (p.key.starts_with("io-host|") && i % 4 == 0) || p.key.contains("vec3<f32>|f32") || p.key.contains("mat3x3<f32>") && p.key.starts_with("s1");
         if !(i % stride == 0 || forced) {
             continue;
         }
